@@ -318,6 +318,13 @@ def _chain_rules(si, ai, bi, ci, order):
     return rules, g
 
 
+def _chain_grammar(si, ai, bi, ci, order):
+    bodies = {'S': S_POOL[si], 'A': A_POOL[ai], 'B': B_POOL[bi], 'C': C_POOL[ci]}
+    seq = ['S', 'A', 'B', 'C'] if order == 0 else ['C', 'B', 'A', 'S']
+    return Grammar([GRule(NT_NAMES[nt], [[N(NT_NAMES[x]) if x in NT_NAMES else T(x) for x in alt] for alt in bodies[nt]]) for nt in seq],
+                   declare=['T1', 'T2'])
+
+
 def _chain_body(rec, si, ai, bi, ci, order):
     si = hs.pick(si, 0, len(S_POOL) - 1)
     ai = hs.pick(ai, 0, len(A_POOL) - 1)
